@@ -80,14 +80,16 @@ class CMAESDesigner(vza.PartiallySerializableDesigner):
     completed_trials = list(completed.trials)
 
     # Keep inserting completed trials into population. If population is full,
-    # a CMA-ES update and queue clear are triggered.
+    # a CMA-ES update and queue clear are triggered. The population holds the
+    # (features, labels) rows of the trials, so that it can be serialized.
     while completed_trials:
-      self._trial_population.put(completed_trials.pop())
+      features, labels = self._converter.to_xy([completed_trials.pop()])
+      self._trial_population.put((features[0], labels[0]))
 
       if self._trial_population.full():
         # Once full, make a full CMA-ES update.
-        features, labels = self._converter.to_xy(
-            list(self._trial_population.queue))
+        features = np.stack([f for f, _ in self._trial_population.queue])
+        labels = np.stack([l for _, l in self._trial_population.queue])
         # CMA-ES expects fitness to be shape (pop_size,) and solutions of shape
         # (pop_size, num_params).
         self._cma_es_jax.tell(
@@ -118,10 +120,23 @@ class CMAESDesigner(vza.PartiallySerializableDesigner):
     cma_state = json.loads(
         metadata.ns('cma')['state'], object_hook=json_utils.numpy_hook)
     self._cma_es_jax.load_state(cma_state)
+    # Partially filled population (absent in metadata written by older
+    # versions).
+    population = json.loads(
+        metadata.ns('cma').get('trial_population', '[]'),
+        object_hook=json_utils.numpy_hook,
+    )
+    self._trial_population.queue.clear()
+    for features, labels in population:
+      self._trial_population.put((np.asarray(features), np.asarray(labels)))
 
   def dump(self) -> vz.Metadata:
     cma_state = self._cma_es_jax.save_state()
     metadata = vz.Metadata()
     metadata.ns('cma')['state'] = json.dumps(
         cma_state, cls=json_utils.NumpyEncoder)
+    metadata.ns('cma')['trial_population'] = json.dumps(
+        [[features, labels] for features, labels in self._trial_population.queue],
+        cls=json_utils.NumpyEncoder,
+    )
     return metadata
